@@ -399,14 +399,48 @@ func verifyFuncMode(w *World, ss *SpecSet, fn *ssa.Function, sweep, finder bool)
 	if fr.retLocs != nil && !fr.retLocConflict {
 		env.resLoc = fr.retLocs
 	}
-	for i, en := range ct.Ensures {
-		g, err := e.specBool(env, en.E)
-		if err != nil {
-			e.contractError(fr, fmt.Sprintf("ensures %d: %v", i+1, err))
-			continue
+	if len(fr.returns) == 1 {
+		for i, en := range ct.Ensures {
+			g, err := e.specBool(env, en.E)
+			if err != nil {
+				e.contractError(fr, fmt.Sprintf("ensures %d: %v", i+1, err))
+				continue
+			}
+			e.counts["post"] = i // stable ordinal = clause index
+			e.oblige("post", g, fn.Pos(), en.Text)
 		}
-		e.counts["post"] = i // stable ordinal = clause index
-		e.oblige("post", g, fn.Pos(), en.Text)
+	} else {
+		// one obligation per (ensures clause, return statement): a failure names the path that violates the clause
+		order := make([]int, len(fr.returns))
+		for i := range order {
+			order[i] = i
+		}
+		sort.SliceStable(order, func(a, b int) bool { return fr.returns[order[a]].pos < fr.returns[order[b]].pos })
+		exitCur, exitMem := fr.cur, e.mem
+		for rank, ri := range order {
+			r := fr.returns[ri]
+			fr.cur = r.at
+			e.mem = r.mem
+			envR := e.fnEnv(fr, r.mem)
+			for j := 0; j < nres; j++ {
+				envR.results = append(envR.results, e.mkT(r.vals[j], fn.Signature.Results().At(j).Type()))
+			}
+			if r.locs != nil {
+				envR.resLoc = r.locs
+			}
+			for i, en := range ct.Ensures {
+				g, err := e.specBool(envR, en.E)
+				if err != nil {
+					e.contractError(fr, fmt.Sprintf("ensures %d: %v", i+1, err))
+					continue
+				}
+				cls := fmt.Sprintf("post.r%d", rank+1)
+				e.counts[cls] = i
+				o := e.oblige(cls, g, r.pos, en.Text)
+				o.Class = "post"
+			}
+		}
+		fr.cur, e.mem = exitCur, exitMem
 	}
 	// every return reachable (vacuity guard)
 	for i, r := range fr.returns {
